@@ -1,4 +1,208 @@
-From Coq Require Import List.
-From QV Require Import C19.Model.
-Theorem stub_placeholder : True. Proof. exact I. Qed.
-Print Assumptions stub_placeholder.
+(* C19/Props.v : the property theorems (statements only; proofs are in Proofs.v / Traj.v).
+
+   Model: C19/Model.v (tied to /repo on every run by harness/c19.py, exact structural
+   correspondence of NoiseModel.apply(circuit).queue and circuit.with_pauli_noise(map).queue).
+
+   Reading guide
+   - [spec_apply rules c] is the property text: for every gate of c in order, the gate itself and the
+     channels of the rules that fire on it, right after it -- right BEFORE it for a measurement
+     (readout errors).  [noise_apply_channels_local]: these channels act on a subset of the trigger's
+     qubits (CustomError channels excepted: they are the user's fixed channel object).
+   - FULL-STRENGTH STATEMENTS ARE FALSE of the faithful model (and of qibo): *_refuted.
+     [noise_apply_exact_partial] / [noise_apply_skeleton_partial] hold on the inputs described by
+     [clean] (Model.v): readout rules only on measurement classes, only readout rules on measurement
+     classes, at most one readout rule firing per measurement (and none naming exactly its qubits
+     without firing), no measurement with collapse=True, measured qubits not touched again,
+     distinct register names, custom channels inside the trigger's qubits.
+   - [noise_apply_repeats] is unconditional: whatever the rules, apply only ever repeats or drops
+     input gates (order kept). *)
+From Coq Require Import List Bool Arith QArith ZArith Ring.
+From QV Require Import C19.Model C19.Proofs C19.Traj.
+Import ListNotations.
+Local Close Scope Q_scope.
+Local Open Scope nat_scope.
+
+(* ---------------------------------------------------------------- NoiseModel.apply *)
+Theorem noise_apply_exact_partial : forall rules coll0 c,
+  clean rules coll0 c = true ->
+  apply rules coll0 c = Some (spec_apply rules c) /\
+  option_map s_coll (apply_st rules coll0 c) = Some coll0.      (* collapse flags of the shared M objects unchanged *)
+Proof. exact apply_exact_clean. Qed.
+Print Assumptions noise_apply_exact_partial.
+
+Theorem noise_apply_skeleton_partial : forall rules coll0 c,
+  clean rules coll0 c = true -> option_map erase (apply rules coll0 c) = Some c.
+Proof. exact apply_skeleton_clean. Qed.
+Print Assumptions noise_apply_skeleton_partial.
+
+(* erasing the channels from what the property prescribes gives back the circuit *)
+Theorem spec_apply_skeleton : forall rules c, erase (spec_apply rules c) = c.
+Proof. exact erase_spec_apply. Qed.
+Print Assumptions spec_apply_skeleton.
+
+Theorem noise_apply_channels_local : forall rules g ch,
+  In (Ins ch) (prescribed rules g) -> incl (c_qubits ch) (g_qubits g).
+Proof. exact prescribed_local. Qed.
+Print Assumptions noise_apply_channels_local.
+
+(* a prescribed channel comes from a rule registered for the trigger's class (or for None, if the
+   trigger is neither a channel nor a measurement) whose conditions hold on the trigger *)
+Theorem noise_apply_channels_prescribed : forall rules g it,
+  In it (prescribed rules g) ->
+  exists r, In r rules /\ (r_key r = Some (g_cls g) \/ (r_key r = None /\ g_kind g = KU))
+            /\ fires r g = true /\ In it (chans_of (r_err r) (eff_qubits r g)).
+Proof.
+  intros rules g it H. apply prescribed_In in H as [r [H1 [H2 H3]]].
+  apply lookup_key in H1 as [H1 H4]. exists r. auto.
+Qed.
+Print Assumptions noise_apply_channels_prescribed.
+
+Theorem noise_apply_repeats : forall rules coll0 c out,
+  apply rules coll0 c = Some out ->
+  exists ks, length ks = length c /\ erase out = expand c ks.
+Proof. exact apply_repeats. Qed.
+Print Assumptions noise_apply_repeats.
+
+(* non-vacuity of [clean]: H(0) CNOT(1,0) RX(2) M(0,1) M(2); Pauli noise on every gate restricted to
+   qubits {0,2}, depolarizing on two-qubit gates, one readout rule on qubit 0 and one on qubit 2 *)
+Definition ex_c : list gate :=
+  [mkGate 0 0 KU [0] 0; mkGate 1 1 KU [1; 0] 0; mkGate 2 2 KU [2] 0; mkGate 3 3 KM [0; 1] 0; mkGate 4 3 KM [2] 1].
+Definition ex_rules : list rule :=
+  [mkRule None [] (EPauli 0) (Some [2; 0]); mkRule None [cond_two] (EDepol 1) None;
+   mkRule (Some 3) [] (EReadout 0) (Some [0]); mkRule (Some 3) [] (EReadout 0) (Some [2])].
+Example clean_example : clean ex_rules [] ex_c = true.
+Proof. vm_compute. reflexivity. Qed.
+Example clean_example_output :
+  show (apply ex_rules [] ex_c) =
+  Some [(0, [0], 0); (1, [0], 0); (0, [1], 0); (1, [0], 0); (2, [1; 0], 1); (0, [2], 0); (1, [2], 0);
+        (7, [0], 0); (0, [3], 0); (7, [2], 0); (0, [4], 0)].
+Proof. vm_compute. reflexivity. Qed.
+
+(* ---------------------------------------------------------------- full strength: refuted *)
+Theorem noise_apply_skeleton_refuted :
+  exists rules coll0 c, option_map erase (apply rules coll0 c) <> Some c.
+Proof. exists two_readout, [], [gH; gM01]. exact skeleton_refuted_two_readout. Qed.
+Print Assumptions noise_apply_skeleton_refuted.
+
+(* two readout rules on one measurement: RE(0) M RE(1) M M, and M.collapse becomes True *)
+Theorem noise_apply_two_readout_refuted :
+  show_st (apply_st two_readout [] [gH; gM01]) =
+  Some ([(0, [0], 0); (7, [0], 0); (0, [1], 0); (7, [1], 0); (0, [1], 0); (0, [1], 0)], [], [1]).
+Proof. exact two_readout_output. Qed.
+Print Assumptions noise_apply_two_readout_refuted.
+
+Theorem noise_apply_input_mutated_refuted :
+  exists rules coll0 c, option_map s_coll (apply_st rules coll0 c) <> Some coll0.
+Proof. exists two_readout, [], [gH; gM01]. exact mutation_refuted_two_readout. Qed.
+Print Assumptions noise_apply_input_mutated_refuted.
+
+(* the EMPTY noise model duplicates a collapsing measurement *)
+Theorem noise_apply_empty_model_refuted :
+  option_map erase (apply [] [0] [gM0; gH1; gM2]) = Some [gM0; gM0; gH1; gM2].
+Proof. exact skeleton_refuted_empty_model. Qed.
+Print Assumptions noise_apply_empty_model_refuted.
+
+(* a readout rule naming exactly the measured qubits whose condition is false drops the measurement *)
+Theorem noise_apply_dropped_measurement_refuted :
+  option_map erase (apply [mkRule (Some 1) [fun _ => false] (EReadout 0) (Some [0])] [] [gH; mkGate 1 1 KM [0] 0])
+  = Some [gH].
+Proof. exact skeleton_refuted_dropped. Qed.
+Print Assumptions noise_apply_dropped_measurement_refuted.
+
+(* ---------------------------------------------------------------- with_pauli_noise *)
+Theorem pauli_noise_ok : forall nq m c out,
+  with_pauli_noise nq m c = Some out ->
+  exists m', check_noise_map nq m = Some m' /\
+    out = flat_map (pauli_block m') c /\        (* each gate followed by its channels *)
+    erase out = c /\
+    (forall g it, In it (pauli_block m' g) ->
+       it = Orig g \/
+       exists q o ps, it = Ins (mkChan CPauli [q] o) /\ In q (g_qubits g) /\ g_kind g <> KM /\
+                      assoc q m' = Some (o, ps) /\ pos_sum ps = true).
+Proof.
+  intros nq m c out H. apply pauli_noise_correct in H as [m' [H1 [H2 H3]]].
+  exists m'. repeat split; try assumption. intros g it. apply pauli_block_local.
+Qed.
+Print Assumptions pauli_noise_ok.
+
+Example pauli_noise_example :
+  show (with_pauli_noise 2 (inr [(1, (7, [Qmake 1 8])); (0, (5, [Qmake 0 1; Qmake 0 1]))])
+          [mkGate 0 0 KU [1; 0] 0; mkGate 1 1 KM [0] 0])
+  = Some [(0, [0], 0); (1, [1], 7); (0, [1], 0)].
+Proof. vm_compute. reflexivity. Qed.
+
+Theorem zero_strength_pauli_map : forall nq m c out,
+  with_pauli_noise nq m c = Some out ->
+  (forall m' q o ps, check_noise_map nq m = Some m' -> assoc q m' = Some (o, ps) -> Forall (fun p => Qeq p 0) ps) ->
+  out = map Orig c.
+Proof.
+  intros nq m c out H Z. apply (pauli_zero_strength nq m c out H).
+  intros m' q o ps H1 H2. apply pos_sum_zero. exact (Z m' q o ps H1 H2).
+Qed.
+Print Assumptions zero_strength_pauli_map.
+
+(* ---------------------------------------------------------------- trajectories vs density matrix *)
+(* the algebraic setting, bundled *)
+Record setting := {
+  K : Type; k0 : K; k1 : K; kadd : K -> K -> K; kmul : K -> K -> K; ksub : K -> K -> K; kopp : K -> K;
+  Kring : ring_theory k0 k1 kadd kmul ksub kopp (@eq K);
+  D : Type; dzero : D; dadd : D -> D -> D; dscale : K -> D -> D;
+  dadd_comm : forall a b, dadd a b = dadd b a;
+  dadd_assoc : forall a b c, dadd a (dadd b c) = dadd (dadd a b) c;
+  dadd_0_l : forall a, dadd dzero a = a;
+  dscale_add_r : forall x a b, dscale x (dadd a b) = dadd (dscale x a) (dscale x b);
+  dscale_mul : forall x y a, dscale (kmul x y) a = dscale x (dscale y a);
+  dscale_1 : forall a, dscale k1 a = a;
+  dscale_0 : forall a, dscale k0 a = dzero;
+  dscale_zero : forall x, dscale x dzero = dzero;
+  V : Type; U : Type; proj : V -> D; actV : U -> V -> V; actD : U -> D -> D;
+  proj_act : forall u v, proj (actV u v) = actD u (proj v);
+  actD_add : forall u a b, actD u (dadd a b) = dadd (actD u a) (actD u b);
+  actD_scale : forall u x a, actD u (dscale x a) = dscale x (actD u a);
+  actD_zero : forall u, actD u dzero = dzero
+}.
+
+(* sum over all draw sequences of  prob * |psi_T><psi_T|  =  density-matrix run of the circuit,
+   for every circuit of unitaries and unitary-mixture channels (exact arithmetic) *)
+Theorem trajectory_expectation : forall (S : setting) (c : list (tstep (K S) (U S))) (v : V S),
+  expect (K S) (D S) (dzero S) (dadd S) (dscale S) (V S) (proj S)
+         (trajs (K S) (k0 S) (k1 S) (kadd S) (kmul S) (ksub S) (V S) (U S) (actV S) c v)
+  = run_dm (K S) (k0 S) (k1 S) (kadd S) (ksub S) (D S) (dzero S) (dadd S) (dscale S) (U S) (actD S) c (proj S v).
+Proof.
+  intros S c v.
+  apply (trajectory_expectation_gen (K S) (k0 S) (k1 S) (kadd S) (kmul S) (ksub S) (kopp S) (Kring S));
+    destruct S; assumption.
+Qed.
+Print Assumptions trajectory_expectation.
+
+Theorem trajectory_weights : forall (S : setting) (c : list (tstep (K S) (U S))) (v : V S),
+  weight (K S) (k0 S) (kadd S) (V S)
+         (trajs (K S) (k0 S) (k1 S) (kadd S) (kmul S) (ksub S) (V S) (U S) (actV S) c v) = k1 S.
+Proof.
+  intros S c v. apply (trajectory_weights_gen (K S) (k0 S) (k1 S) (kadd S) (kmul S) (ksub S) (kopp S) (Kring S)).
+Qed.
+Print Assumptions trajectory_weights.
+
+(* a unitary mixture with all probabilities zero is the identity map *)
+Theorem zero_strength_identity : forall (S : setting) (ops : list (K S * U S)) (rho : D S),
+  Forall (fun pu => fst pu = k0 S) ops ->
+  chan_dm (K S) (k0 S) (k1 S) (kadd S) (ksub S) (D S) (dzero S) (dadd S) (dscale S) (U S) (actD S) ops rho = rho.
+Proof.
+  intros S ops rho. apply (zero_strength_dm_gen (K S) (k0 S) (k1 S) (kadd S) (kmul S) (ksub S) (kopp S) (Kring S));
+    destruct S; assumption.
+Qed.
+Print Assumptions zero_strength_identity.
+
+(* non-vacuity: a setting exists (integers; proj v = v^2) *)
+Local Open Scope Z_scope.
+Definition Zsetting : setting.
+Proof.
+  refine {| K := Z; k0 := 0; k1 := 1; kadd := Z.add; kmul := Z.mul; ksub := Z.sub; kopp := Z.opp; Kring := Zring;
+            D := Z; dzero := 0; dadd := Z.add; dscale := Z.mul;
+            V := Z; U := Z; proj := fun v => v * v; actV := Z.mul; actD := fun u d => u * u * d |};
+    intros; ring.
+Defined.
+Example trajectory_setting_example :
+  let c := [TU Z Z 2; TC Z Z [(3, 5); (4, -1)]; TU Z Z 7] in
+  expect Z Z 0 Z.add Z.mul Z (fun v => v * v) (trajs Z 0 1 Z.add Z.mul Z.sub Z Z Z.mul c 1) = 14308.
+Proof. vm_compute. reflexivity. Qed.
